@@ -809,6 +809,20 @@ def replay_sync(ctx, c, n):
 
 
 # ---------------------------------------------------------------------------------------------------------------
+def sync_path_cannot_block(ctx):
+    """lemma G2 on its own (used by C05): for every message length up to the async threshold the index buffers + terminator that
+    findStructuralIndices can send fit the channel capacity; constants are read from this run's SSA; a sat is replayed natively
+    (Parse on a dense document of the maximal sync length must not hang) before it is reported. Records lemma "G2" in ctx."""
+    files = e2run.harness_files(HFILES)
+    prog, info = e2run.lower(files, ["verifE3_*", "verifE3Stage2*"])
+    c = read_constants(prog)
+    ctx.extra.setdefault("constants_from_ssa", c)
+    ctx.assume("G2: stage-1 kernels are a contract stub (at most one index per input byte, the loop is left early only once the index count has "
+               "reached the limit passed by the Go wrapper, %d-byte blocks); in the sync branch no goroutine receives while findStructuralIndices runs" % c["block"])
+    g2(ctx, prog, c)
+    return c
+
+
 def run(ctx):
     ctx.level = "model_checking"
     ctx.assume("stage-1 kernels (assembly) are a contract stub: any index count L' with L <= L' <= max(L, limit-1)+64 (limit read from the Go wrapper's "
